@@ -480,8 +480,22 @@ class Exec(object):
         return hs
 
     def env_value(self, name, fid):
-        typ = self.synthetic_frames[fid].get(name, "any")
-        return self.typed_symbol("env_" + name, typ)
+        k = (fid, name)
+        cache = self.__dict__.setdefault("_env_cache", {})
+        if k not in cache:
+            typ = self.synthetic_frames[fid].get(name, "any")
+            cache[k] = self.typed_symbol("env_" + name, typ)
+        return cache[k]
+
+    def _missing_in_join(self, fid, name):
+        """state.join2: value of a frame entry that one side never touched."""
+        if self.frame_is_synthetic(fid):
+            unit = self.frame_unit.get(fid)
+            if unit is not None and name in self.locals_of(unit):
+                if unit.nested.get(name) is not None:
+                    return self.obj("closure", unit.nested[name], fid)
+                return self.env_value(name, fid)
+        return VUnbound
 
     def typed_symbol(self, name, typ):
         if typ == "str":
@@ -1768,6 +1782,15 @@ class Exec(object):
         c = contract or self.reg.by_key.get(unit.key) or Contract_default(unit.key)
         first = len(self.obligations)
         self.verified_unit = (unit.key, c)
+        # a contract may carry its own scope (a Registry): externals and callee contracts that apply while THIS unit is
+        # verified, ahead of the property-wide ones (so that two units of one property can see the same callee differently)
+        import collections
+        if not hasattr(self, "_base_by_key"):
+            self._base_by_key = self.reg.by_key
+        sc = getattr(c, "scope", None)
+        self.reg.local_externals = list(sc.externals) if sc is not None else []
+        self.reg.by_key = collections.ChainMap(sc.by_key, self._base_by_key) if sc is not None else self._base_by_key
+        self.reg._markers = None
         self.obl_prefix = unit.key.split("::")[1] if "::" in unit.key else unit.key
         # synthetic frames for the enclosing units (closure environment)
         chain = []
@@ -1776,6 +1799,8 @@ class Exec(object):
             chain.append(u)
             u = u.parent
         self.synthetic_frames = self.synthetic_frames or {}
+        from . import state as _state_mod
+        _state_mod.missing_hook = self._missing_in_join
         parent_fid = None
         for u in reversed(chain):
             f = self.new_frame(u, parent_fid)
